@@ -127,10 +127,10 @@ def handleMux (ts : List String) : String :=
           getInt kv "ach", getHexNat kv "adr", getBytes kv "asc", getBytes kv "date",
           (get kv "known").bind String.toNat?, getBytes kv "impl" with
     | some hv, some hs, some asr, some ass, some ach, some adr, some asc, some date, some known, some impl =>
-      let vm : VideoMeta := { codec := codec, width := w, height := h, frameRate := fr, dataRate := vdr,
+      let vm : VideoMeta := { codec := codec, width := w, height := h, frameRate := UInt64.ofNat fr, dataRate := UInt64.ofNat vdr,
                               sps := sps, pps := pps, vps := vps, hevcVps := hv, hevcSps := hs }
       let am : AudioMeta := { aac := get kv "aac" == some "1", sampleRate := asr, sampleSize := ass,
-                              channels := ach, dataRate := adr, asc := asc }
+                              channels := ach, dataRate := UInt64.ofNat adr, asc := asc }
       let src : Src := { codec := codec, aac := am.aac, sps := sps, pps := pps, vps := vps, asc := asc }
       let want := fromStart src known frames
       let app := codec ≠ .other && (want.filter (carried src)).all frameOk &&
